@@ -208,6 +208,20 @@ thread_local! {
 
 /// process-global simulated clock high-water mark (ns); runs start on whole seconds after it
 static GLOBAL_CLOCK: AtomicU64 = AtomicU64::new(0);
+/// scheduling steps executed by this process, all runs (a liveness signal for the watchdog)
+static GLOBAL_STEPS: AtomicU64 = AtomicU64::new(0);
+
+static RUN_ACTIVE: std::sync::atomic::AtomicBool = std::sync::atomic::AtomicBool::new(false);
+
+/// Is a simulation running in this process right now?
+pub fn run_active() -> bool {
+    RUN_ACTIVE.load(Ordering::Relaxed)
+}
+
+/// Number of scheduling steps this process has executed so far (monotone across runs).
+pub fn global_steps() -> u64 {
+    GLOBAL_STEPS.load(Ordering::Relaxed)
+}
 /// hash seed of the current run (for `hash::SeededState`)
 pub(crate) static RUN_HASH_SEED: AtomicU64 = AtomicU64::new(0x5EED);
 
@@ -534,6 +548,7 @@ pub fn sched_point(site: u64) {
     let mut st = sim.lock();
     debug_assert_eq!(st.current, me, "thread running without the baton");
     st.steps += 1;
+    GLOBAL_STEPS.fetch_add(1, Ordering::Relaxed);
     st.threads[me].last_site = site;
     st = check_limits(&sim, st);
     let next = st.choose(Some(me), me, site).expect("current thread is runnable");
@@ -548,6 +563,7 @@ pub fn block_on(key: u64, deadline: Option<u64>, site: u64) -> Wake {
     let mut st = sim.lock();
     debug_assert_eq!(st.current, me);
     st.steps += 1;
+    GLOBAL_STEPS.fetch_add(1, Ordering::Relaxed);
     st.blocks += 1;
     st.threads[me].last_site = site;
     st.threads[me].blocked_count += 1;
@@ -894,6 +910,7 @@ where
         park_forever();
     }
     st.steps += 1;
+    GLOBAL_STEPS.fetch_add(1, Ordering::Relaxed);
     st.threads[tid].status = Status::Finished;
     let jk = join_key(tid);
     for t in st.threads.iter_mut() {
@@ -933,6 +950,7 @@ where
     T: Send + 'static,
 {
     assert!(!in_sim(), "nested simulation");
+    RUN_ACTIVE.store(true, Ordering::Relaxed);
     // each run starts on a whole simulated second, >= 10 s after the previous run ended
     let prev = GLOBAL_CLOCK.load(Ordering::Relaxed);
     let start = ((prev + 10_000_000_000) / 1_000_000_000 + 1) * 1_000_000_000;
@@ -1044,6 +1062,7 @@ where
         trace: std::mem::take(&mut st.trace),
     };
     GLOBAL_CLOCK.store(st.clock, Ordering::Relaxed);
+    RUN_ACTIVE.store(false, Ordering::Relaxed);
     drop(st);
     let result = if wedged {
         // the main thread may be stuck; do not join
